@@ -181,3 +181,48 @@ Fixpoint join (sep : pystr) (parts : list pystr) : pystr :=
   | [p] => p
   | p :: r => p ++ sep ++ join sep r
   end.
+
+(* --- additions for C20 / C15 (version strings, C array formatting) --- *)
+(* str.strip() on ASCII strings: Python's whitespace below 128 is \t \n \v \f \r, \x1c..\x1f and the space *)
+Definition is_space (c : Z) : bool := ((9 <=? c) && (c <=? 13)) || ((28 <=? c) && (c <=? 32)).
+Fixpoint lstrip (s : pystr) : pystr :=
+  match s with
+  | [] => []
+  | c :: r => if is_space c then lstrip r else s
+  end.
+Definition str_strip (s : pystr) : pystr := rev (lstrip (rev (lstrip s))).
+
+(* list(range(a, b, s)); range() raises ValueError for a zero step *)
+Definition range_step (a b s : Z) : res (list Z) :=
+  if s =? 0 then Raise ValueError
+  else if 0 <? s then Ok (map (fun k => a + Z.of_nat k * s) (seq 0 (Z.to_nat (ceil_div (b - a) s))))
+  else Ok (map (fun k => a + Z.of_nat k * s) (seq 0 (Z.to_nat (ceil_div (a - b) (- s))))).
+
+(* int.bit_length() *)
+Definition bit_length (x : Z) : Z := if x =? 0 then 0 else Z.log2 (Z.abs x) + 1.
+
+(* first entry of an association list keyed by strings (dict / Enum member lookup by name) *)
+Fixpoint str_lookup {A} (k : pystr) (tbl : list (pystr * A)) : option A :=
+  match tbl with
+  | [] => None
+  | (k', v) :: r => if str_eqb k k' then Some v else str_lookup k r
+  end.
+
+(* int(str) on ASCII: surrounding whitespace, an optional sign, decimal digits with single underscores between
+   digits; anything else raises ValueError.  (The 4300-digit limit of CPython is not modelled.) *)
+Fixpoint digits_us (s : pystr) (prev_digit : bool) (acc : Z) : option Z :=
+  match s with
+  | [] => if prev_digit then Some acc else None
+  | c :: r => if is_digit c then digits_us r true (acc * 10 + (c - 48))
+              else if (c =? 95) && prev_digit then digits_us r false acc
+              else None
+  end.
+Definition int_of_str (s : pystr) : res Z :=
+  let t := str_strip s in
+  let r := match t with
+           | [] => None
+           | c :: r => if c =? 43 then digits_us r false 0
+                       else if c =? 45 then option_map Z.opp (digits_us r false 0)
+                       else digits_us t false 0
+           end in
+  match r with Some z => Ok z | None => Raise ValueError end.
